@@ -26,7 +26,12 @@ const wrapPackets = 65536 + 5
 
 func runRawWrap(c *core.Case) {
 	rw := &rawWrapCase{Kind: "raw-wrap", Seed: c.Rand.Int63(), Packets: wrapPackets}
-	rw.Carrier = []string{"message", "iq"}[c.Rand.Intn(2)]
+	// quick: the cheaper message carrier (with IQ-carried packets around the
+	// turn-over so that acknowledgements are seen there); thorough: either
+	rw.Carrier = "message"
+	if c.Tier == "thorough" {
+		rw.Carrier = []string{"message", "iq"}[c.Rand.Intn(2)]
+	}
 	c.Sample(rw)
 	execRawWrap(c, rw)
 }
@@ -63,7 +68,11 @@ func execRawWrap(c *core.Case, rw *rawWrapCase) {
 	}
 	for i := 0; i < rw.Packets; i++ {
 		seq := i % 65536
-		if rw.Carrier == "iq" {
+		// On the message carrier the packets around the turn-over (65533 … 2)
+		// travel in IQs: the library takes data for a stream from either stanza
+		// kind, and an IQ gets an answer that can be checked.
+		asIQ := rw.Carrier == "iq" || (i >= 65533 && i <= 65538)
+		if asIQ {
 			sb.WriteString("<iq type='set' id='w")
 			sb.WriteString(strconv.Itoa(i))
 			sb.WriteString("'><data xmlns='" + nsIBB + "' seq='")
@@ -75,7 +84,7 @@ func execRawWrap(c *core.Case, rw *rawWrapCase) {
 		sb.WriteString(strconv.Itoa(seq))
 		sb.WriteString("' sid='wrap'>")
 		sb.WriteString(b64[data[i]])
-		if rw.Carrier == "iq" {
+		if asIQ {
 			sb.WriteString("</data></iq>")
 		} else {
 			sb.WriteString("</data></message>")
@@ -97,6 +106,7 @@ func execRawWrap(c *core.Case, rw *rawWrapCase) {
 	rp.mu.Unlock()
 	acks := 0
 	firstBad, firstBadCond := -1, ""
+	otherCarrierRefused := false
 	for _, n := range replies {
 		id := n.Attr("id")
 		if !strings.HasPrefix(id, "w") {
@@ -107,6 +117,10 @@ func execRawWrap(c *core.Case, rw *rawWrapCase) {
 			continue
 		}
 		switch {
+		case n.Attr("type") == "error" && n.Name.Local == "iq" && rw.Carrier == "message" && errCond(n) != "unexpected-request":
+			// an implementation may insist on the negotiated carrier: not a
+			// sequence problem, and nothing the statement forbids
+			otherCarrierRefused = true
 		case n.Attr("type") == "error":
 			if firstBad < 0 || k < firstBad {
 				firstBad, firstBadCond = k, errCond(n)
@@ -126,9 +140,15 @@ func execRawWrap(c *core.Case, rw *rawWrapCase) {
 	} else if rw.Carrier == "iq" && acks != rw.Packets {
 		c.Violate("ibb:refusal:valid-packet:no-reply", "raw speaker → library (iq carrier): %d of %d data IQs were acknowledged", acks, rw.Packets)
 	}
-	if rw.Carrier == "iq" {
-		c.Count("wrap_acks_checked", acks)
+	if otherCarrierRefused {
+		c.Count("wrap_iq_on_message_stream_refused", 1)
+		c.Count("raw_wrap_runs", 1)
+		return // the byte stream rightly has holes where those packets were
 	}
+	if rw.Carrier == "message" && firstBad < 0 && acks != 6 {
+		c.Violate("ibb:refusal:valid-packet:no-reply", "raw speaker → library: %d of the 6 IQ-carried packets around the turn-over (65533…2) were acknowledged", acks)
+	}
+	c.Count("wrap_acks_checked", acks)
 	// The reader must have been able to take every byte, in order.
 	if firstBad < 0 && !settle(c, rd, rw.Packets, base, "after the last packet of the wrap run") {
 		return
